@@ -23,6 +23,12 @@ class Built:
     sector: int = 512
     note: dict = field(default_factory=dict)
     parent_base: int = 0  # byte offset added to guest offset for the parent's pattern
+    cb: int = 1  # cells per allocation unit (for D tokens: c = position * cb + cell in unit)
+    stride: int = 0  # bytes between consecutive unit positions (0 -> cb * cell)
+
+    def geo(self, nfiles=1):
+        return {"cellB": self.cell, "cb": self.cb, "stride": self.stride or self.cb * self.cell,
+                "bases": [self.bases.get(f, 0) for f in range(nfiles)], "pbase": self.parent_base}
 
 
 class ParentStream(io.RawIOBase):
@@ -84,7 +90,9 @@ def token_bytes(tok, a, b, built: Built):
     if k == "Z":
         return bytes(n)
     if k == "D":
-        return patterns.pat(tok["f"], built.bases[tok["f"]] + tok["c"] * built.cell + a, n)
+        c = tok["c"]
+        stride = built.stride or built.cb * built.cell
+        return patterns.pat(tok["f"], built.bases[tok["f"]] + (c // built.cb) * stride + (c % built.cb) * built.cell + a, n)
     if k == "B":
         if built.has_parent:
             return patterns.pat(PARENT_F, built.parent_base + tok["c"] * built.cell + a, n)
